@@ -592,7 +592,8 @@ class Machine:
             return ["added"]
         if not hasattr(h.solver, "add_replacement"):
             raise _Skip("not a replacement frontend")
-        res = self.call(h.solver.add_replacement, self.ast(["var", n]), self.cl.BVV(v, w))
+        k = {"invalidate_cache": False} if op.get("invalidate_cache") is False else {}
+        res = self.call(h.solver.add_replacement, self.ast(["var", n]), self.cl.BVV(v, w), **k)
         if res[0] != "ok":
             self.unexpected(h, op, res[1])
         return ["replaced"]
@@ -1081,10 +1082,12 @@ class Machine:
         h = self.H(op)
         if h.ref.kind != "enum":
             raise _Skip("needs the enumeration reference")
-        self.used_specs = list(h.lineage)
+        extras = op.get("extra") or []
+        self.used_specs = list(h.lineage) + list(extras)
         if self.dry:
             return ["dry"]
-        res = self.call(h.solver.unsat_core)
+        # with extra constraints: the core of (constraints and extras), made of tracked constraints only
+        res = self.call(h.solver.unsat_core, **({"extra_constraints": tuple(self.asts(extras))} if extras else {}))
         self.stats["queries"] += 1
         if self.check_faulted(h, op, res):
             return ["fault-raised"]
@@ -1095,9 +1098,9 @@ class Machine:
             core = list(val)
         except TypeError:
             self.bad("core-not-a-sequence", h, op, got=repr(val)[:100])
-        if h.ref.M:
+        if h.ref.models(extras):
             if len(core) != 0:
-                self.bad("core-nonempty-on-sat", h, op, size=len(core))
+                self.bad("core-nonempty-on-sat", h, op, size=len(core), extra=extras)
             return ["core", 0]
         Base = self.cl.ast.Base
         Bool = self.cl.ast.Bool
@@ -1142,9 +1145,9 @@ class Machine:
                 if mine not in tables:
                     self.bad("core-element-not-tracked", h, op, element=str(el)[:120], size=len(core))
         # conjunction unsatisfiable: evaluate each element on all assignments through claripy's concrete backend
-        if len(core) == 0:
-            self.bad("core-empty-on-unsat", h, op)
-        alive = self.ref0().universe
+        if len(core) == 0 and self.ref0().models(extras):
+            self.bad("core-empty-on-unsat", h, op, extra=extras)
+        alive = self.ref0().models(extras)
         for el in core:
             alive = [m for m in alive if self._concrete_truth(el, m)]
             if not alive:
